@@ -88,10 +88,6 @@ Proof.
 Qed.
 
 (* ---------- stepping: one pseudocode line of the specification against one statement of the code ---------- *)
-Lemma run_get_sys_bind {A} i (k : Z -> M machine A) s : bind (get_sys i) k s = k (getl (sys s) i) s.
-Proof. reflexivity. Qed.
-Lemma run_put_sys_bind {A} i v (k : unit -> M machine A) s : bind (put_sys i v) k s = k tt (set_sysv s i v).
-Proof. reflexivity. Qed.
 Lemma run_upd_cpsr_bind {A} (f : Z -> Z) (k : unit -> M machine A) s :
   bind (get_sys 0) (fun r => bind (put_sys 0 (f r)) k) s = k tt (upd_cpsr s f).
 Proof. reflexivity. Qed.
